@@ -393,6 +393,31 @@ class Report(Base53):
     station = orm.relationship("Station", back_populates="reports")
 
 
+class Device(Base53):
+    """joined-table inheritance under sharding: subclass columns arrive through the
+    'optimized get' (Probe) or the polymorphic selectin load (Gauge)"""
+
+    __tablename__ = "gm_device"
+    id = sa.Column(sa.Integer, primary_key=True)
+    kind = sa.Column(sa.String(10))
+    label = sa.Column(sa.String(40))
+    __mapper_args__ = {"polymorphic_on": kind, "polymorphic_identity": "device"}
+
+
+class Probe(Device):
+    __tablename__ = "gm_probe"
+    id = sa.Column(sa.ForeignKey("gm_device.id"), primary_key=True)
+    depth = sa.Column(sa.Integer)
+    __mapper_args__ = {"polymorphic_identity": "probe"}
+
+
+class Gauge(Device):
+    __tablename__ = "gm_gauge"
+    id = sa.Column(sa.ForeignKey("gm_device.id"), primary_key=True)
+    width = sa.Column(sa.Integer)
+    __mapper_args__ = {"polymorphic_identity": "gauge", "polymorphic_load": "selectin"}
+
+
 # --------------------------------------------------------------------------
 # graph snapshots over __dict__ only (never trigger a load)  -- C51
 # --------------------------------------------------------------------------
